@@ -16,6 +16,8 @@ ASSUMPTIONS = {
     "A-tracker-stable": "the resource tracker does not die between two consecutive liveness probes of one process launch",
     "A-kernel-sem": "_multiprocessing.SemLock implements a counting semaphore / recursive mutex as documented (value never negative, release refused above maxvalue, "
                     "mutex re-entrant for its owning thread only)",
+    "A-running": "a result item or a feeder error concerns a future that dispatch marked RUNNING and that nobody resolved since (each call item is answered at most "
+                 "once: worker contract; a RUNNING future cannot be cancelled by its owner)",
     "A-monitor": "an Event's flag semaphore holds 0 or 1 whenever its condition's lock is acquired",
     "A-spawn": "queues do not send objects while a process object is being pickled for launch",
     "A-fds": "descriptors recorded in a Popen's keep list are open descriptors of this process",
